@@ -191,4 +191,13 @@ func c05(ctx *Ctx) {
 		n = 600
 	}
 	cUDPInto(ctx, "C05", n, shard+1)
+	// TCP: the validating dialer at dial time, for literal addresses of every class, IPv4-mapped
+	// forms, and names that resolve to several addresses or change between two look-ups
+	rule := ctx.Stats.Rule
+	nt := 70
+	if ctx.Thorough() {
+		nt = 700
+	}
+	cTCPInto(ctx, "C05", nt, 5000)
+	ctx.Stats.Rule = rule
 }
